@@ -26,7 +26,7 @@ MANIFEST = {
              "vocabulary in this file. Not decided: round trip; sign handling of decimal words ('+5' is accepted by u8::from_str; "
              "real git accepts it too). Observation (not claimed as a finding): git expands '#rgb' to '#rrggbb' by doubling each "
              "digit, this parser reads each digit as a value 0-15."),
-    "technique": "static analysis: string-literal match-table extraction vs git vocabulary, structural path-condition (guard dominance) rules, dataflow of the colour counter and error payloads",
+    "technique": "static analysis: string-literal match-table extraction vs git vocabulary, case-wise path feasibility of the colour slots (parse_color Ok/Err x colours seen), polynomial/value-flow rules for the hex slices, guard-dominance rules",
 }
 
 G = "anstyle_git::"
